@@ -1,6 +1,6 @@
 """C07 — DNS questions and answers are routed by the first matching DNS rule."""
 import json, os
-from verifkit import read_lines
+from verifkit import read_lines, VERIF
 
 REQUIRED = [
 ]
@@ -15,9 +15,16 @@ def run(ctx):
     samples = []
     dist = {}
 
+    def gen_for(pkgname):
+        # the shared generator template, instantiated for the package it is injected into
+        src = open(os.path.join(VERIF, "harness", "overlay", "c07_gen.go")).read()
+        dst = os.path.join(ctx.out, f"c07gen_{pkgname}_test.go")
+        open(dst, "w").write(src.replace("package C07PKG", "package " + pkgname, 1))
+        return dst
+
     def tie(pkg, files, outname, test, stream):
         nonlocal evaluations
-        binp = ctx.go_test_build(pkg, files, outname, pkgname=None)
+        binp = ctx.go_test_build(pkg, files + [gen_for(os.path.basename(pkg))], outname)
         if not binp:
             return False
         rc, out = ctx.run_harness(binp, test)
@@ -57,6 +64,7 @@ def run(ctx):
         return ctxl
 
     ok = tie("component/dns", ["component/dns/c07_test.go"], "c07m", "TestVerifC07Matchers", "c07m")
+    ok = ok and tie("control", ["control/c07_test.go"], "c07c", "TestVerifC07Controller", "c07c")
     if not ok:
         return 2
     ctx.samples = samples
